@@ -223,6 +223,8 @@ FEATURES = {
     "dot": (_scatter2("dotproduct"), "none", "scatter2"), "nested": (_scatter2("nested_crossproduct"), "none", "scatter2"),
     "flat": (_scatter2("flat_crossproduct"), "none", "scatter2"),
     "nested_empty": (_scatter2("nested_crossproduct", "e", "ys"), "none", "scatter2"),
+    "nested_empty2": (_scatter2("nested_crossproduct", "xs", "e"), "none", "scatter2"),
+    "nested_empty3": (_scatter2("nested_crossproduct", "e", "e"), "none", "scatter2"),
     "flat_one": (_scatter2("flat_crossproduct", "one", "ys"), "none", "scatter2"),
     "dot_empty": (_scatter2("dotproduct", "e", "e"), "none", "scatter2"),
     "scatter12": (_scatter1("xl"), "none", "scatter"), "dot12": (_scatter2("dotproduct", "xl", "xl"), "none", "scatter2"),
